@@ -284,6 +284,8 @@ def check_C06(ctx, rep):
 
 
 def check_C07(ctx, rep):
+    small_models2.check_cyk(ctx, rep, ctx.prog.func('cfg_algorithms.cfg_cyk_matrix'), ctx.prog.func('cfg_algorithms.cfg_accepts_word'))
+    rep.clauses_decided.append('on five model grammars in Chomsky normal form and all words up to length 4 (3) every CYK cell holds exactly the variables that derive the subword and the membership test agrees with derivability (M23, finite model)')
     small_models2.check_unit_elimination(ctx, rep, ctx.prog.func('cfg_algorithms.cfg_eliminate_unit_rules_in_place'))
     rep.clauses_decided.append('cfg_eliminate_unit_rules_in_place, on six model grammars (unit cycles with an exit, a start variable that only reaches unit rules, a self-loop) under two iteration orders of the variable set, leaves no unit rule and keeps the words up to length 3 (M16, finite model)')
     small_models2.check_nullable(ctx, rep, ctx.prog.func('cfg_algorithms.cfg_nullable_variables'))
